@@ -13,6 +13,8 @@ Decides:
                    to file_name().to_str()) before boxing the same iterator as the items.
  W  who            process::exit and the std print functions are called only from the listed functions.
  N  non-empty      every arm of Message::render that reaches ParseFailure::Stderr writes to the Doc.
+ U  usage fallback the stdout/exit-0 usage fallback is guarded by an emptiness test taken before parsing, so a real
+                   failure is never reclassified as success output.
 Does not decide: byte equality of the text across the process boundary."""
 import re
 from core import *
@@ -22,7 +24,7 @@ from cfgq import *
 LEVEL = 'other'
 EXPLANATION = __doc__
 ASSUMPTIONS = ['std::io::_print writes to stdout and _eprint to stderr; process::exit(n) terminates with status n']
-FLOORS = {'X.exit-table': 3, 'S.stream-table': 6, 'R.run-flow': 10, 'A.argv0': 6, 'W.who': 12, 'N.non-empty': 17}
+FLOORS = {'X.exit-table': 3, 'S.stream-table': 6, 'R.run-flow': 10, 'A.argv0': 6, 'W.who': 12, 'N.non-empty': 17, 'U.usage-fallback': 1}
 
 EXIT_TABLE = {
     'info::OptionParser::<T>::run': 'documented: print the failure and exit with its code',
@@ -53,6 +55,8 @@ def run(ctx):
         argv0(ctx, cfg, fs)
         who(ctx, cfg, fs)
         nonempty(ctx, cfg, fs)
+        import c10
+        c10.usage_fallback(ctx, cfg, fs.one(r'^info::OptionParser::<T>::run_subparser$'), 'U.usage-fallback')
 
 def exit_table(ctx, cfg, fs):
     b = ctx.look(fs.one(r'^error::ParseFailure::exit_code$'))
